@@ -182,3 +182,52 @@ Proof.
   split; [vm_compute; reflexivity|]. split; [vm_compute; reflexivity|].
   rewrite <- Hn. apply (calls_wide full_parsers None no_skip 204); [discriminate|exact Hall|vm_compute; reflexivity|vm_compute; reflexivity].
 Qed.
+
+(* ---- packet size detection IS the source ----
+   Gen/DemuxGen.v (Section PacketBuffer) is translated from the current /repo/packet_buffer.go on every run
+   (go/gen/demuxgen.go): rewind, peek, autoDetectPacketSize (with its deferred Discard and its search loop) and
+   newPacketBuffer.  rewind_reader, auto_detect and new_packet_buffer, about which the theorems above speak, are those
+   regenerated functions with the reader operations instantiated by the model (Proofs/DemuxGenEq.v: io.ReadFull =
+   read_full, Peek = what read_full would deliver without consuming it, Discard, Seek(0, 0) = r_seek0, the type
+   assertions answered by the reader's kind), for EVERY reader whose bookkeeping is consistent (rest_len), of every
+   kind, with or without an injected failure — which is EExt wr for an arbitrary wr (it may wrap io.EOF): the same
+   size or error class (ErrNoMorePackets recognisable with ==), the same reader position afterwards, never Panicked.
+   A seek back by 193 bytes instead of to 0, errors.Is in place of == for io.EOF / io.ErrUnexpectedEOF /
+   ErrNoMorePackets, another window, another rule for the second sync byte: each breaks one of these proofs. *)
+Require Import Gen.DemuxGen Proofs.DemuxGenEq Proofs.DemuxGenEqDetect.
+
+Theorem C08_rewind_is_source : forall r pm g c,
+  DemuxGen.rewind mworld rkind unit as_seeker_m seek_m (r_kind r) (mk_mworld r pm g c) =
+  Done (fst (rewind_reader r), None, mk_mworld (snd (rewind_reader r)) pm g c).
+Proof. exact rewind_reader_is_generated. Qed.
+Print Assumptions C08_rewind_is_source.
+
+Theorem C08_detect_is_source : forall (wr : gerr) r pm g c, rest_len r ->
+  match autoDetectPacketSize mworld rkind unit as_seeker_m seek_m unit as_bufio_m (peek_m wr) (read_full_m wr) discard_m
+          (r_kind r) (mk_mworld r pm g c) with
+  | Done (size, err, w') =>
+      w' = mk_mworld (snd (auto_detect r)) pm g c /\ res_rel_exact (Some size) err (fst (auto_detect r))
+  | _ => False
+  end.
+Proof. exact auto_detect_is_generated. Qed.
+Print Assumptions C08_detect_is_source.
+
+Theorem C08_new_packet_buffer_is_source : forall (wr : gerr) r opt sk pm g c, rest_len r ->
+  match newPacketBuffer mworld rkind unit as_seeker_m seek_m unit as_bufio_m (peek_m wr) (read_full_m wr) discard_m
+          (r_kind r) opt sk (mk_mworld r pm g c) with
+  | Done (pb, err, w') =>
+      w' = mk_mworld (snd (new_packet_buffer r opt)) pm g c /\
+      res_rel_exact (option_map (fun rec => mk_pbuf (packetBuffer_packetSize rkind rec)) pb) err
+                    (fst (new_packet_buffer r opt)) /\
+      (forall rec, pb = Some rec ->
+         packetBuffer_s rkind rec = sk /\ packetBuffer_r rkind rec = r_kind r /\
+         packetBuffer_packetReadBuffer rkind rec = [])
+  | _ => False
+  end.
+Proof. exact new_packet_buffer_is_generated. Qed.
+Print Assumptions C08_new_packet_buffer_is_source.
+
+(* rest_len holds for every reader the model builds and is kept by reading and by seeking back *)
+Theorem C08_rest_len_new : forall data f k, rest_len (new_reader data f k).
+Proof. exact rest_len_new. Qed.
+Print Assumptions C08_rest_len_new.
